@@ -2,6 +2,8 @@ import Driver.InterpIO
 import PytezosModel.Michelson.Interp.Impl
 import PytezosModel.Michelson.Interp.Spec
 import PytezosModel.Core.HashKeccak
+import PytezosModel.Crypto.RealHash
+import PytezosModel.Core.Base58
 open Driver Interp
 
 namespace InterpDriver
@@ -47,17 +49,46 @@ def topPushesOk : Instr → Bool
   | .PUSH _ v => implLitOk v
   | _ => true
 
+/-- HASH_KEY's function, executable: `Key.from_encoded_key(k).public_key_hash()` — Base58Check decoding of the key
+(`edpk` / `sppk` / `p2pk`), BLAKE2b with a 20-byte digest of the public point, Base58Check encoding under `tz1` / `tz2` /
+`tz3` (cross-checked against pytezos by the `hash hashkey` lines; `[]`: not a key of these curves) -/
+def hashKeyImpl (k : List Nat) : List Nat :=
+  match Base58.b58decCheck RealHash.cks k with
+  | .ok body =>
+    let pk := body.drop 4
+    let out (p : List Nat) : List Nat := Base58.b58encCheck RealHash.cks (p ++ Core.Hash.blake2b 20 pk)
+    if body.take 4 = [13, 15, 37, 217] then out [6, 161, 159]
+    else if body.take 4 = [3, 254, 226, 86] then out [6, 161, 161]
+    else if body.take 4 = [3, 178, 139, 127] then out [6, 161, 164]
+    else []
+  | .error _ => []
+
 /-- the executable hash functions the driver plugs into the model (cross-checked against `hashlib` by the `hash` lines) -/
 def execHashes : Hashes :=
   { blake2b := Core.Hash.blake2b32, sha256 := Core.Hash.sha256, sha512 := Core.Hash.sha512,
-    keccak := Core.Hash.keccak256, sha3 := Core.Hash.sha3_256 }
+    keccak := Core.Hash.keccak256, sha3 := Core.Hash.sha3_256, hashKey := hashKeyImpl }
+
+/-- `-` or `hex(key_hash):power,…`: the table behind `context.get_voting_power` (0 for a delegate that is not listed) -/
+def parseVotingPower (w : String) : Option (List (List Nat × Int)) :=
+  if w == "-" then some []
+  else (w.splitOn ",").mapM fun e =>
+    match e.splitOn ":" with
+    | [k, v] => do pure (codes (← hexToString k), ← parseInt v)
+    | _ => none
+
+def lookupPower (tbl : List (List Nat × Int)) (k : List Nat) : Int :=
+  match tbl.find? (fun e => e.1 == k) with
+  | some e => e.2
+  | none => 0
 
 def parseEnv : List String → Option Env
-  | [a, b, n, l, snd, src, slf, cid, tvp, mbt] => do
+  | [a, b, n, l, snd, src, slf, cid, tvp, mbt, vp] => do
+    let tbl ← parseVotingPower vp
     pure { amount := ← parseInt a, balance := ← parseInt b, now := ← parseInt n, level := ← parseInt l,
            sender := codes (← hexToString snd), source := codes (← hexToString src),
            self := codes (← hexToString slf), chainId := codes (← hexToString cid),
-           totalVotingPower := ← parseInt tvp, minBlockTime := ← parseInt mbt, hashes := execHashes }
+           totalVotingPower := ← parseInt tvp, minBlockTime := ← parseInt mbt, votingPower := lookupPower tbl,
+           hashes := execHashes }
   | _ => none
 
 /-- `hash <blake2b|sha256|sha512|keccak|sha3> <hex>` -/
@@ -70,11 +101,12 @@ def handleHash : List String → String
       else if algo == "sha512" then toHex (Core.Hash.sha512 b)
       else if algo == "keccak" then toHex (Core.Hash.keccak256 b)
       else if algo == "sha3" then toHex (Core.Hash.sha3_256 b)
+      else if algo == "hashkey" then toHex (hashKeyImpl b)      -- text in, text out (both as hex of the ASCII codes)
       else "bad-op"
     | none => "bad-op"
   | _ => "bad-op"
 
-/-- `impl|spec <fuel> | <amount balance now level sender source self chain_id> | <program>` -/
+/-- `impl|spec <fuel> | <amount balance now level sender source self chain_id total_voting_power min_block_time voting_power> | <program>` -/
 def handle (line : String) : String :=
   match words line with
   | "hash" :: rest => handleHash rest
